@@ -314,6 +314,11 @@ pub proof fn lemma_step_back(a: &Alignment, i: int, j: int)
 /// ASSUMED contract of `Vec::from(VecDeque)`: same elements, same order.
 pub assume_specification<T, A: std::alloc::Allocator>[ <Vec<T, A> as From<std::collections::VecDeque<T, A>>>::from ](v: std::collections::VecDeque<T, A>) -> (r: Vec<T, A>)
     ensures r@ == v@;
+// str::eq_ignore_ascii_case: "Checks that two strings are an ASCII case-insensitive match." (not used by delta; named
+// here so that a comparison of tokens that is looser than equality is decided by the obligations, not by the front end)
+pub uninterp spec fn eq_ignoring_ascii_case(a: Seq<char>, b: Seq<char>) -> bool;
+pub assume_specification[ str::eq_ignore_ascii_case ](a: &str, b: &str) -> (r: bool)
+    ensures r == eq_ignoring_ascii_case(a@, b@), a@ == b@ ==> r;
 
 impl<'a> Alignment<'a> {
     //@ fn src/align.rs Alignment::index
